@@ -41,6 +41,7 @@ type Job struct {
 	MaxCases  int      `json:"max_cases"`
 	ShrinkN   int      `json:"shrink_budget"`
 	StartCase int      `json:"start_case"`
+	Recycle   int      `json:"recycle"`
 	From      int      `json:"from"`
 	To        int      `json:"to"`
 }
@@ -75,6 +76,7 @@ type Out struct {
 	Shrunk      *Found         `json:"shrunk,omitempty"`
 	ShrinkRuns  int            `json:"shrink_runs,omitempty"`
 	Error       string         `json:"error,omitempty"`
+	ResumeAt    int            `json:"resume_at,omitempty"`
 }
 
 type ReplayFile struct {
@@ -336,13 +338,18 @@ func runSimCheck(id, tier string, seed uint64, p propInfo, scratch string, start
 			// A case that kills its worker (unrecoverable Go fatal, panic on a
 			// goroutine falco started, hang) is attributed through the breadcrumb,
 			// confirmed alone, recorded, and the worker is restarted after it.
-			for losses := 0; losses <= 12; losses++ {
-				job := Job{Mode: "range", Property: id, Tier: tier, Seed: seed, Worker: w, Workers: workers, Deadline: deadline, MaxCases: envInt("FALCOSIM_MAXCASES", 0), StartCase: start}
+			for losses := 0; losses <= 12; {
+				job := Job{Mode: "range", Property: id, Tier: tier, Seed: seed, Worker: w, Workers: workers, Deadline: deadline, MaxCases: envInt("FALCOSIM_MAXCASES", 0), StartCase: start, Recycle: envInt("FALCOSIM_RECYCLE", 20000)}
 				o, crumb, err := runWorker(bi.Bin, job, scratch, stuck, caseBudget+10*time.Minute, nil)
 				if err == nil {
 					r.outs = append(r.outs, o)
+					if o.ResumeAt > 0 && o.Error == "" {
+						start = o.ResumeAt // the process handled its share; a fresh one continues
+						continue
+					}
 					return
 				}
+				losses++
 				c, perr := strconv.Atoi(strings.TrimSpace(crumb))
 				if perr != nil || c < 0 {
 					r.err = fmt.Errorf("worker %d failed outside any case: %v", w, err)
